@@ -85,6 +85,16 @@ def decode_fn(prog):
             "{\n  let ghost buf0 = cur.buf@;\n" + b.strip()[1:].rstrip()[:-1] + "\n}\n")
 
 
+def referenced_consts(src, fn_text):
+    """module-level `const NAME: T = expr;` items of `src` that the transcribed function mentions (copied verbatim)"""
+    out = []
+    for name in sorted(set(re.findall(r"\b[A-Z][A-Z0-9_]{2,}\b", fn_text))):
+        m = re.search(r"^\s*(?:pub(?:\([^)]*\))?\s+)?const\s+%s\s*:\s*[^=;]+=\s*[^;]+;" % name, src, re.M)
+        if m:
+            out.append(re.sub(r"^\s*(?:pub(?:\([^)]*\))?\s+)?", "pub ", m.group(0).strip()))
+    return "\n".join(out) + ("\n" if out else "")
+
+
 def opcode_table(sect):
     """[(variant, byte)] read off `pub enum OpCode { X = 0x.., .. }`"""
     m = find_code(sect, r"pub\s+enum\s+OpCode\s*\{")
@@ -313,7 +323,8 @@ def add_units(plan, prop="C07"):
         model = open(MODEL).read()
         part1, part2 = model.split("// ---- the reader", 1)
         part2 = "// ---- the reader" + part2
-        items = [part1, _enum(sect, "OpCode"), "impl OpCode {\n%s %s\n}\n" % (sig.strip(), body), _enum(prog, "DecodedInstr"), decode_fn(prog),
+        dfn = decode_fn(prog)
+        items = [part1, _enum(sect, "OpCode"), "impl OpCode {\n%s %s\n}\n" % (sig.strip(), body), _enum(prog, "DecodedInstr"), referenced_consts(prog, dfn), dfn,
                  vlib.verus_canary("canary_decode", "x: u64", [])]
         u = vlib.VerusUnit("c07_decode_instructions", vlib.verus_file(items), {"decode_instructions": ob.name}, ["canary_decode"])
         plan.verus.append(u)
@@ -322,7 +333,7 @@ def add_units(plan, prop="C07"):
                       what="every byte stream made of well-formed instructions -- known opcode, size as the encoder writes it (VarArg: 17 + 4 * operand count, for ANY count), entirely inside the buffer -- is accepted: the decoder rejects nothing the encoder can emit; OpCode::from_u8 is the inverse of the enum's discriminants")
         try:
             spec_from, size, from_u8, fnc = complete_items(sect, prog)
-            itemsc = [part1, _enum(sect, "OpCode"), spec_from, size, from_u8, _enum(prog, "DecodedInstr"), fnc, vlib.verus_canary("canary_decode_complete", "x: u64", [])]
+            itemsc = [part1, _enum(sect, "OpCode"), spec_from, size, from_u8, _enum(prog, "DecodedInstr"), referenced_consts(prog, fnc), fnc, vlib.verus_canary("canary_decode_complete", "x: u64", [])]
             plan.verus.append(vlib.VerusUnit("c07_decode_complete", vlib.verus_file(itemsc), {"decode_instructions": obc.name}, ["canary_decode_complete"]))
             plan.dropped.append(complete_items.__doc__.strip())
         except Exception as e:
